@@ -15,40 +15,48 @@ KINDS = ["DE", "DE2", "NM", "PW"]
 # script alphabet (lists so they serialise):  ["step"] ["solve"] ["limits", g, e, new] ["cfg", what]
 # ["evalmon", new, on] ["stepmon", kind] ["term", [gens...]] ["exit"] ["exit_in", k] ["finalize"]
 
+def _reconf(rng):
+    """one configuration call, the families equally likely"""
+    fam = rng.choice(["limits", "cfg", "evalmon", "term", "exit", "exit_in", "finalize", "stepmon"])
+    if fam == "limits":
+        return ["limits", rng.choice([NONE, 0, 1, 2, 3, 5]), rng.choice([NONE, 0, 1, 3, 7, 12, 30]), rng.random() < 0.5]
+    if fam == "cfg":
+        return ["cfg", rng.choice(["pen", "objchange", "cons", "ranges", "reducer"])]
+    if fam == "evalmon":
+        return ["evalmon", rng.random() < 0.5, rng.random() < 0.8]
+    if fam == "term":
+        return ["term", sorted(rng.sample(range(0, 9), rng.randint(0, 3)))]
+    if fam == "exit_in":
+        return ["exit_in", rng.randint(1, 3)]
+    if fam == "stepmon":
+        return ["stepmon", rng.choice(["plain", "verbose"])]
+    return [fam]
+
+
 def random_script(rng, kind, maxlen=8):
+    """config prefix, then runs (Step/Solve) interleaved with re-configuration calls: every script
+    re-configures a solver that already ran at least once"""
     ops = []
-    n = rng.randint(2, maxlen)
-    # configuration prefix
+    n = rng.randint(3, maxlen)
     if rng.random() < 0.6:
         ops.append(["term", sorted(rng.sample(range(0, 7), rng.randint(0, 2)))])
     if rng.random() < 0.5:
         ops.append(["limits", rng.choice([NONE, 0, 1, 2, 3, 5]), rng.choice([NONE, 0, 1, 3, 7, 12, 30]), False])
     if rng.random() < 0.2:
         ops.append(["stepmon", rng.choice(["plain", "verbose"])])
+    ops.append(["step"] if rng.random() < 0.8 else ["solve"])
+    ops.append(_reconf(rng))
     while len(ops) < n:
         r = rng.random()
-        if r < 0.40:
+        if r < 0.50:
             ops.append(["step"])
-        elif r < 0.50:
+        elif r < 0.60:
             ops.append(["solve"])
-        elif r < 0.62:
-            ops.append(["limits", rng.choice([NONE, 0, 1, 2, 3, 5]), rng.choice([NONE, 0, 1, 3, 7, 12, 30]),
-                        rng.random() < 0.5])
-        elif r < 0.72:
-            ops.append(["cfg", rng.choice(["pen", "objchange", "cons", "ranges", "reducer"])])
-        elif r < 0.78:
-            ops.append(["evalmon", rng.random() < 0.3, rng.random() < 0.8])
-        elif r < 0.84:
-            ops.append(["term", sorted(rng.sample(range(0, 9), rng.randint(0, 3)))])
-        elif r < 0.88:
-            ops.append(["exit"])
-        elif r < 0.93:
-            ops.append(["exit_in", rng.randint(1, 3)])
-        elif r < 0.97:
-            ops.append(["finalize"])
         else:
-            ops.append(["stepmon", "plain"])
-    # a Solve must be able to end: make sure a finite limit or termination exists before it
+            ops.append(_reconf(rng))
+    if ops[-1][0] not in ("step", "solve"):
+        ops.append(["step"])
+    # a Solve must be able to end: make sure a finite limit exists before it
     out = []
     bounded = False
     for op in ops:
@@ -124,19 +132,29 @@ CHECK_DEADLOCK FALSE
 """
 
 
-def _validate_batch(traces, diag=False, timeout=1800):
+LIFECYCLE = {"module": "solver/Trace_Lifecycle", "cfg": None}   # cfg filled below
+OBJECTIVE_CFG = """SPECIFICATION TraceSpec
+CONSTRAINT Accept
+POSTCONDITION AllAccepted
+CHECK_DEADLOCK FALSE
+"""
+OBJECTIVE = {"module": "solver/Trace_Objective", "cfg": OBJECTIVE_CFG}
+
+
+def _validate_batch(traces, diag=False, timeout=1800, spec=None):
+    spec = spec or LIFECYCLE
     d = scratch_dir()
     try:
         path = os.path.join(d, "traces.json")
         with open(path, "w") as f:
             json.dump(traces, f)
-        cfgp = os.path.join(d, "Trace_Lifecycle.cfg")
+        cfgp = os.path.join(d, "Trace.cfg")
         with open(cfgp, "w") as f:
-            f.write(TRACE_CFG)
+            f.write(spec["cfg"] or TRACE_CFG)
         env = {"TRACE_FILE": path}
         if diag:
             env["DIAG"] = "1"
-        r = run_tlc("solver/Trace_Lifecycle", cfg=cfgp, env=env, workers=1, timeout=timeout, heap="4g")
+        r = run_tlc(spec["module"], cfg=cfgp, env=env, workers=1, timeout=timeout, heap="4g")
         return r
     finally:
         shutil.rmtree(d, ignore_errors=True)
@@ -145,12 +163,12 @@ def _validate_batch(traces, diag=False, timeout=1800):
 MAX_DIAG = 24      # rejected traces diagnosed one by one per batch (each costs a TLC start)
 
 
-def validate(traces, ck=None, name="Trace_Lifecycle"):
+def validate(traces, ck=None, name="Trace_Lifecycle", spec=None):
     """returns list of verdicts, one per trace: None (accepted) or dict(reason, at, event, invariant)"""
     verdicts = [None] * len(traces)
     if not traces:
         return verdicts
-    r = _validate_batch(traces)
+    r = _validate_batch(traces, spec=spec)
     if ck is not None:
         ck.mc(r, name)
     if r.violated and r.kind in ("invariant", "action-property"):
@@ -165,21 +183,21 @@ def validate(traces, ck=None, name="Trace_Lifecycle"):
         inv_fail = False
     if inv_fail:
         # bisect cheaply: validate each trace alone only when few, else chunks
-        rejected = _bisect(traces, list(range(len(traces))))
+        rejected = _bisect(traces, list(range(len(traces))), spec)
     for n, i in enumerate(rejected):
         if n < MAX_DIAG:
-            verdicts[i] = diagnose(traces[i])
+            verdicts[i] = diagnose(traces[i], spec)
         else:
             verdicts[i] = {"reason": "rejected", "at": None, "event": None, "prev": None,
                            "failing": ["rejected-not-diagnosed(more-than-%d-in-batch)" % MAX_DIAG]}
     return verdicts
 
 
-def _bisect(traces, idxs):
+def _bisect(traces, idxs, spec=None):
     """indices of traces that are not cleanly accepted (invariant violation or rejection)"""
     if not idxs:
         return []
-    r = _validate_batch([traces[i] for i in idxs])
+    r = _validate_batch([traces[i] for i in idxs], spec=spec)
     bad_here = bool(r.violated)
     summ = [p for p in r.printed if isinstance(p, dict) and "accepted" in p]
     if not bad_here:
@@ -187,13 +205,13 @@ def _bisect(traces, idxs):
     if len(idxs) == 1:
         return idxs
     m = len(idxs) // 2
-    return _bisect(traces, idxs[:m]) + _bisect(traces, idxs[m:])
+    return _bisect(traces, idxs[:m], spec) + _bisect(traces, idxs[m:], spec)
 
 
-def diagnose(trace):
+def diagnose(trace, spec=None):
     """validate one trace alone: longest matched prefix, the first unexplainable event and the names of
     the specification clauses that are false for it (or the violated invariant)"""
-    r = _validate_batch([trace], diag=True)
+    r = _validate_batch([trace], diag=True, spec=spec)
     if r.violated and r.kind in ("invariant", "action-property"):
         import re
         nstates = len(re.findall(r"^State \d+:", r.out, re.M))
